@@ -150,8 +150,17 @@ impl<'a, P: ?Sized + PathImpl> PathMutImpl<'a, P> {
 				i -= 1
 			}
 
-			replace(self.buffer, i..self.end, &[]);
-			self.end = i;
+			if i == start && self.buffer[i] == b'/' {
+				// AMBIGUITY: The only remaining segment is empty: `//foo`
+				//            would become `/`, dropping it as well.
+				// SOLUTION:  We write `/./`, as `parent` does.
+				replace(self.buffer, start..self.end, b"./");
+				self.end = start + 2;
+			} else {
+				replace(self.buffer, i..self.end, &[]);
+				self.end = i;
+			}
+
 			true
 		} else {
 			false
